@@ -215,6 +215,29 @@ def run(ctx):
     ctx.ob('slice-order', 'hypotheses-in-ordered-container', ok,
            f'slice_database must keep the cut antecedents (floating hypotheses first) in a dict (insertion order = database order); `{CUT}` is '
            f'declared {[ast.unparse(d)[:60] for d in decl]}', py.where(SLICER, fn))
+    # every statement a later lemma may refer to is registered: on each path of the scanning loop that handles a labelled statement
+    # (anything but `$c` / `$v` / `$d`) and does not raise, the container gets an entry - whether or not a slice is emitted for it
+    from ..core import astpaths as AP
+    scan = [lp for lp in ast.walk(fn) if isinstance(lp, ast.For) and any(n is sup_calls[0] for n in ast.walk(lp))]
+    ctx.require(len(scan) >= 1, 'slice_database: the loop over the statements of the database was not found')
+    scan_loop = scan[0]
+    unregistered = []
+    n_reg = 0
+    for sp in AP.paths(scan_loop.body):
+        if sp.end == 'raise':
+            continue
+        unlabelled = any(b and re.search(r'isinstance\(\w+, \(?[^)]*(ConstantStatement|VariableStatement|DisjointStatement)', c) for c, b in sp.conds)
+        if unlabelled:
+            continue
+        stores = [a for a in sp.actions for n in ast.walk(a) if isinstance(n, ast.Subscript) and isinstance(n.ctx, ast.Store)
+                  and isinstance(n.value, ast.Name) and n.value.id == CUT]
+        n_reg += 1
+        if not stores:
+            unregistered.append(' and '.join(f'{c[:50]} is {b}' for c, b in sp.conds[-3:]))
+    ctx.ob('slice-closure', 'every-labelled-statement-registered', n_reg >= 3 and not unregistered,
+           f'slice_database passes over a labelled statement without entering it into `{CUT}` (when ' + '; or when '.join(sorted(set(unregistered))[:2])
+           + '): a later lemma whose proof refers to it can no longer be sliced - the statement has to be available as a hypothesis of '
+           'later slices whether or not a slice is emitted for it', py.where(SLICER, scan_loop), facts={'paths': n_reg})
     oa = OrderAnalysis(py)
     for s in oa.sites():
         if s.module != SLICER:
